@@ -110,9 +110,42 @@ def run(spec, out):
                               f"[{label}] {short['fn']}({short['desc']!r}, {short['kwargs']}) vs {long['fn']}({long['desc']!r}, {long['kwargs']}): only the {ok_side} form is accepted; {bad_side}: {type(e).__name__}: {str(e)[:120]}")
 
 
+    # ---- every reduction x keepdims: the random cases above reach a given (operation, flag) pair only now and then
+    if spec.get("shard", 0) % 4 == 0:
+        import warnings as _w
+        x = nprng.integers(-3, 7, size=(2, 3, 4)).astype(np.float64)
+        for op in G.REDUCE_OPS:
+            xx = (x > 0) if op in ("any", "all") else x
+            for short_d, long_d in (("a [b] c", "a ([b]) c"), ("[a] b [c]", "([a]) b ([c])"), ("a [b]...", "a ([b])...")):
+                for b in (None, "numpy.numpylike"):
+                    out.evaluation()
+                    out.count("rule:keepdims-all-reductions")
+                    out.distinct_key(f"keepdims-all|{op}|{short_d}|{b}")
+                    bk = {} if b is None else {"backend": b}
+                    with _w.catch_warnings():
+                        _w.simplefilter("ignore")
+                        try:
+                            r1 = ("ok", getattr(einx, op)(short_d, xx, keepdims=True, **bk))
+                        except Exception as e:  # noqa
+                            r1 = ("exc", type(e).__name__)
+                        try:
+                            r2 = ("ok", getattr(einx, op)(long_d, xx, **bk))
+                        except Exception as e:  # noqa
+                            r2 = ("exc", type(e).__name__)
+                    wit = {"rule": "keepdims-vs-parentheses", "op": op, "short": short_d, "long": long_d, "backend": b}
+                    if r1[0] != r2[0] or (r1[0] == "exc" and r1[1] != r2[1]):
+                        out.violation({"kind": "short-long-one-form-fails", "rule": "keepdims-all-reductions", "op": op}, {**wit, "short_outcome": str(r1[1])[:80] if r1[0] == "exc" else "ok", "long_outcome": str(r2[1])[:80] if r2[0] == "exc" else "ok"},
+                                      f"[keepdims] {op}({short_d!r}, keepdims=True) -> {r1[0]}, {op}({long_d!r}) -> {r2[0]}")
+                    elif r1[0] == "ok" and not (np.shape(r1[1]) == np.shape(r2[1]) and same_value(r1[1], r2[1], inexact=True)):
+                        out.violation({"kind": "short-long-value-differs", "rule": "keepdims-all-reductions", "op": op}, {**wit, "short_shape": list(np.shape(r1[1])), "long_shape": list(np.shape(r2[1]))},
+                                      f"[keepdims] {op}({short_d!r}, keepdims=True) has shape {np.shape(r1[1])}, {op}({long_d!r}) has shape {np.shape(r2[1])}")
+                    else:
+                        out.count("agree:keepdims-all-reductions")
+
+
 def finalize(agg, tier, seed):
     c = agg.counters
-    rules = ["implicit-vs-explicit-output", "number-vs-named-axis", "unbracketed-vs-bracketed", "ellipsis-vs-written-out", "extra-spaces", "rearrange-vs-id", "adjacent-brackets-merged",
+    rules = ["keepdims-all-reductions", "implicit-vs-explicit-output", "number-vs-named-axis", "unbracketed-vs-bracketed", "ellipsis-vs-written-out", "extra-spaces", "rearrange-vs-id", "adjacent-brackets-merged",
              "anonymous-vs-named-ellipsis", "scalar-vs-tuple-size", "keepdims-vs-parentheses", "keepdims-after-plain-call", "unit-coordinate-bracket", "nested-arrow", "argfind-unit-bracket", "ambiguous-implicit-output-rejected", "nested-comma"]
     for r in rules:
         if c.get(f"agree:{r}", 0) < 5:
